@@ -166,9 +166,24 @@ where
     // per-step interval comparison through the hook
     let mut ref_shadow: Vec<(u128, u128)> = Vec::new();
     let _ = &mut ref_shadow;
-    if !drive(run, rng, &mut enc, &mut msg, Some(&mut reference), &mut edges, &cfg, |_, _, _, _, _| true) {
+    // in 1/4 of the messages somebody looks at the compressed data while it is being produced
+    // (that seals and unseals temporarily); the emitted words must still be the format's
+    let peek_16: u64 = *rng.pick(&[0u64, 0, 0, 6]);
+    let mut peeks = 0u64;
+    if !drive(run, rng, &mut enc, &mut msg, Some(&mut reference), &mut edges, &cfg, |_, rng, e, _, _| {
+        if peek_16 > 0 && rng.below(16) < peek_16 {
+            peeks += 1;
+            if rng.bool() {
+                let _ = e.get_compressed().len();
+            } else {
+                let _ = e.decoder().maybe_exhausted();
+            }
+        }
+        true
+    }) {
         return;
     }
+    run.count("range_peeks_while_encoding", peeks);
     // final interval must agree with the reference's (low, range); digits are compared below
     let (l, r) = lower_range::<M, S>(&enc);
     if l != reference.low || r != reference.range {
